@@ -1,0 +1,30 @@
+//! Work counters used by external verification tooling.
+//!
+//! Only compiled with the `verif_hooks` feature. The counters are thread local,
+//! so concurrent builds on different threads do not disturb each other.
+
+use std::cell::Cell;
+
+thread_local! {
+    static RANK_POPS: Cell<u64> = const { Cell::new(0) };
+    static PATH_QUERIES: Cell<u64> = const { Cell::new(0) };
+}
+
+/// Resets both counters to zero.
+pub fn reset() {
+    RANK_POPS.with(|c| c.set(0));
+    PATH_QUERIES.with(|c| c.set(0));
+}
+
+/// Returns `(rank_pops, path_queries)` counted since the last [`reset`].
+pub fn read() -> (u64, u64) {
+    (RANK_POPS.with(Cell::get), PATH_QUERIES.with(Cell::get))
+}
+
+pub(crate) fn rank_pop() {
+    RANK_POPS.with(|c| c.set(c.get() + 1));
+}
+
+pub(crate) fn path_query() {
+    PATH_QUERIES.with(|c| c.set(c.get() + 1));
+}
